@@ -111,10 +111,19 @@ func runHelper(c *Case) (m [][]float64, xord int, outcome string) {
 	if c.Kind == "Jac" {
 		rows = vfDims[c.Fid][1]
 	}
-	if c.P == 0 {
+	// receiver: P&1 = 0 Real64, 1 Float64; P&2: a RECYCLED result matrix holding non-zero entries from an
+	// earlier use (every entry has to be overwritten, also those whose partial derivative is 0)
+	if c.P&1 == 0 {
 		r = ad.NullDenseReal64Matrix(rows, cols)
 	} else {
 		r = ad.NullDenseFloat64Matrix(rows, cols)
+	}
+	if c.P&2 != 0 {
+		for i := 0; i < rows; i++ {
+			for j := 0; j < cols; j++ {
+				r.At(i, j).SetFloat64(float64(7*i-3*j) + 0.5)
+			}
+		}
 	}
 	outcome = "ok"
 	func() {
@@ -208,7 +217,7 @@ func genHelper(rng *Rng, i int) *Case {
 			x[j] = 0.5 + 2.5*rng.Float()
 		}
 	}
-	return &Case{Kind: kind, Fid: fid, Inp: hexList(x), P: i % 4 / 2} // P: 0 = Real64 receiver, 1 = Float64 receiver
+	return &Case{Kind: kind, Fid: fid, Inp: hexList(x), P: i % 8 / 2} // P: 0 = Real64 receiver, 1 = Float64 receiver, 2 / 3 = the same, recycled with non-zero content
 }
 
 func (rn *runner) helperCase(c *Case) {
